@@ -1,6 +1,7 @@
 package verifkit
 
 import (
+	"sync"
 	"bytes"
 	"crypto/sha256"
 	"encoding/hex"
@@ -83,6 +84,11 @@ func sha(d []byte) string {
 	return hex.EncodeToString(h[:])
 }
 
+var (
+	globalNonceMu sync.Mutex
+	globalNonceCt = map[string]string{}
+)
+
 // noteNonce records the nonce of one encrypted object (ct = the ciphertext sealed under it) and reports
 // whether it is fresh: non-zero and never used for a DIFFERENT ciphertext before (storing the very same
 // bytes again, e.g. re-uploading a file, is not a reuse).
@@ -97,6 +103,18 @@ func (p *Projector) noteNonce(n []byte, ct []byte) bool {
 	}
 	if p.nonceCt == nil {
 		p.nonceCt = map[string]string{}
+	}
+	// nonces are random 128-bit values drawn by the process under test: a value seen before for other bytes is a
+	// reuse whichever repository (history of this run) it was seen in, so the registry is shared by all
+	// projectors of the test process
+	globalNonceMu.Lock()
+	gold, gok := globalNonceCt[k]
+	if !gok {
+		globalNonceCt[k] = fp
+	}
+	globalNonceMu.Unlock()
+	if gok && gold != fp {
+		return false
 	}
 	if old, ok := p.nonceCt[k]; ok {
 		return old == fp && !zero
